@@ -126,6 +126,11 @@ Resolve(files, cmd) == IF cmd # "absent" THEN <<CTok(cmd)>>
 \* the statement does not order configuration files among themselves: any assigning file may win
 FileCandidates(files) == {<<FTok(files[k])>> : k \in Assigned(files)}
 
+\* ---- names are case-sensitive keys.  A user data name (and an option key of a file's [behave] section) spelled in
+\* another case is ANOTHER key: each key of `keys` is resolved from its own assignments only (fa, ca: key -> assignment
+\* in the file / by -D); a key nobody assigns is not defined, a miscased option key leaves the option unmentioned.
+KeysResolve(fa, ca) == [k \in DOMAIN fa |-> Resolve(<<fa[k]>>, ca[k])]
+
 \* concrete value of a token sequence; vals: record d, fv1, fv2, cv1, cv2, forced of string sequences
 RECURSIVE Concrete(_,_)
 Concrete(vals, toks) == IF toks = <<>> THEN <<>> ELSE vals[Head(toks)] \o Concrete(vals, Tail(toks))
